@@ -663,8 +663,11 @@ def run(ctx) -> dict:
     counts: dict[str, int] = {}
     results = [r05_1(ctx, counts), r05_2(ctx, counts), r05_3(ctx, counts), r05_4(ctx, counts),
                r05_5(ctx, counts), r05_6(ctx, counts), r05_7(ctx, counts)]
+    # process-wide state is written only by the reviewed inventory (no new caches)
+    from .c19_global import r19_5 as _r19_5
+    _state = _r19_5(ctx, counts, None, 6)
     return {
-        'results': results, 'counts': counts,
+        'results': results + [_state], 'counts': counts,
         'explanation':
             'Effect discipline of the dynamic phase, decided on the source: evaluation code does '
             'not write into the syntax tree (token attributes, operand lists), into operand '
